@@ -165,6 +165,9 @@ class UAIReader(object):
         """
         domain = {}
         var_domain = self.grammar.parseString(self.network)["domain_variables"]
+        # a network with a single variable gives a bare string, not a list
+        if isinstance(var_domain, str):
+            var_domain = [var_domain]
         for var in range(0, len(var_domain)):
             domain["var_" + str(var)] = var_domain[var]
         return domain
